@@ -118,6 +118,8 @@ m("C14","zero-area-tolerance","xy/area_centroid.go","	if math.Abs(calc.areasum2)
 m("C11","second-crossing-site","xy/internal/raycrossing/ray-crossing-counter.go","	// check if the point is equal to the current ring vertex","	if p1[0] > counter.p[0] && p2[0] > counter.p[0] && (p1[1] >= counter.p[1]) != (p2[1] >= counter.p[1]) {\n		counter.crossingCount++\n		return\n	}\n\n	// check if the point is equal to the current ring vertex","crossing-convention")
 m("C08","newbounds-one-array","bounds.go","	minValue, maxValue := make(Coord, stride), make(Coord, stride)","	both := make(Coord, 2*stride)\n	minValue, maxValue := both[:stride], both[stride:]","min-max-distinct-storage/geom.NewBounds")
 
+m("C11","revert-exact-ray-crossing","xy/internal/raycrossing/ray-crossing-counter.go","		xIntSign := float64(bigxy.OrientationIndex(counter.p, p1, p2))","		xIntSign := float64(bigxy.OrientationIndex(geom.Coord{0, 0}, geom.Coord{p1[0] - counter.p[0], p1[1] - counter.p[1]}, geom.Coord{p2[0] - counter.p[0], p2[1] - counter.p[1]}))","ray-crossing-exact-predicate/")
+
 # ---- C12
 R="xy/lineintersector/robust_line_intersector.go"
 m("C12","same-side-nonstrict",R,"(line1StartToLine2Orientation < 0 && line1EndToLine2Orientation < 0)","(line1StartToLine2Orientation <= 0 && line1EndToLine2Orientation <= 0)","orientation-case-analysis/")
